@@ -297,7 +297,7 @@ func (g *G) soundAnswer(dim int, q query, b box, id int, pYes float64) lans {
 }
 
 // wildAnswer: random, regardless of the box (only the faithful traversal is compared).
-func (g *G) wildAnswer(q query, id int, pYes float64) lans {
+func (g *G) wildAnswer(q query, id int, pYes float64, palette []float64) lans {
 	var a lans
 	if !g.p(pYes) {
 		return a
@@ -305,10 +305,10 @@ func (g *G) wildAnswer(q query, id int, pYes float64) lans {
 	switch q.q {
 	case "ray":
 		for k := 1 + g.Rng.Intn(3); k > 0; k-- {
-			a.scales = append(a.scales, g.pickF(scaleGrid[:17]))
+			a.scales = append(a.scales, g.pickF(palette))
 		}
 	case "first":
-		a.has, a.s = true, g.pickF(scaleGrid[:17])
+		a.has, a.s = true, g.pickF(palette)
 	case "tri":
 		for j := 0; j <= g.Rng.Intn(3); j++ {
 			a.ids = append(a.ids, 1000*id+j)
@@ -322,11 +322,16 @@ func (g *G) wildAnswer(q query, id int, pYes float64) lans {
 func (g *G) answers(dim int, q query, bs []box, sound bool) []lans {
 	pYes := g.pickF([]float64{0.05, 0.15, 0.3, 0.6, 1})
 	ans := make([]lans, len(bs))
+	// wild scales come from a small per-case palette, so that equal minimal scales (ties) are frequent
+	palette := scaleGrid[:17]
+	if g.p(0.6) {
+		palette = []float64{g.pickF(scaleGrid[:17]), g.pickF(scaleGrid[:17]), g.pickF(scaleGrid[:17])}
+	}
 	for i, b := range bs {
 		if sound {
 			ans[i] = g.soundAnswer(dim, q, b, i, pYes)
 		} else {
-			ans[i] = g.wildAnswer(q, i, pYes)
+			ans[i] = g.wildAnswer(q, i, pYes, palette)
 		}
 	}
 	return ans
@@ -368,17 +373,19 @@ func (g *G) aimQuery(dim int, kind string, boxes []box) query {
 	return q
 }
 
+// countTies: the minimal `first` scale is reported by more than one leaf.
 func countTies(ans []lans) bool {
-	seen := map[float64]bool{}
+	best, cnt := 0.0, 0
 	for _, a := range ans {
-		if a.has {
-			if seen[a.s] {
-				return true
-			}
-			seen[a.s] = true
+		switch {
+		case !a.has:
+		case cnt == 0 || a.s < best:
+			best, cnt = a.s, 1
+		case a.s == best:
+			cnt++
 		}
 	}
-	return false
+	return cnt > 1
 }
 
 // ---------------------------------------------------------------------------
